@@ -140,6 +140,9 @@ pub fn pool(seed: u64) -> Pool {
     c.insert("C".to_string(), Cfg { mods: 0, da_scroll: Some(2.0), od: Some((9.5, false)), random_seed: Some(7), ..Default::default() });
     // the lazer-only Invert mod (mania)
     c.insert("I".to_string(), Cfg::default().with_acronyms("IN"));
+    // key mods (the target column count of a mania conversion)
+    c.insert("K4".to_string(), Cfg::default().with_acronyms("4K"));
+    c.insert("K7".to_string(), Cfg::default().with_acronyms("7K"));
     c.insert("D".to_string(), Cfg { mods: 16, da_scroll: Some(0.5), od: Some((2.0, false)), clock_rate: Some(0.8), random_seed: Some(1234), ..Default::default() });
     Pool { texts, cfgs: c }
 }
@@ -295,6 +298,11 @@ fn exec_plain(pool: &Pool, maps: &Shared, c: &Call) -> (String, String, bool) {
         "strains" => format!("{:?}", d.strains(&maps[&c.m])),
         "perf" => format!("{:?}", Performance::new(&maps[&c.m]).difficulty(d.clone()).accuracy(94.2).misses(1).calculate()),
         "bpm" => format!("{:?}", maps[&c.m].bpm()),
+        // conversions (the settings' mods decide the key count), by reference, and the calculation for a target mode on the source
+        "tomania" => format!("{:?}", maps[&c.m].convert_ref(GameMode::Mania, &cfg.game_mods()).map(|m| m.into_owned())),
+        "totaiko" => format!("{:?}", maps[&c.m].convert_ref(GameMode::Taiko, &cfg.game_mods()).map(|m| m.into_owned())),
+        "tocatch" => format!("{:?}", maps[&c.m].convert_ref(GameMode::Catch, &cfg.game_mods()).map(|m| m.into_owned())),
+        "calcmania" => format!("{:?}", d.calculate_for_mode::<rosu_pp::mania::Mania>(&maps[&c.m])),
         other => format!("unsupported op {other}"),
     });
     match r {
@@ -407,6 +415,17 @@ pub fn threads_main(args: &[String]) -> i32 {
             for op in ["calc", "strains", "perf"] {
                 plain.push(Call { op: op.into(), m: m.into(), cfg: cfg.into(), h: "-".into() });
             }
+        }
+    }
+    // conversions of the two osu! maps under different key counts: several DIFFERENT conversions in flight at once
+    for m in ["m1", "m5"] {
+        for cfg in ["-", "K4", "K7"] {
+            for op in ["tomania", "calcmania"] {
+                plain.push(Call { op: op.into(), m: m.into(), cfg: cfg.into(), h: "-".into() });
+            }
+        }
+        for op in ["totaiko", "tocatch"] {
+            plain.push(Call { op: op.into(), m: m.into(), cfg: "-".into(), h: "-".into() });
         }
     }
     {
